@@ -455,6 +455,8 @@ def main():
                     broken.append(f"driver exited with {rc}: " + out[-1500:])
                 else:
                     drv_res = json.load(open(rp))
+                    for b in drv_res.get("broken") or []:
+                        broken.append("driver obligation: " + b[:1500])
                     drv_res["shard_list"] = [(work, sn) for sn in (drv_res.get("shards") or [])]
             # the same driver under other build tags (e.g. the binary encoder); results are merged
             for suffix, vtags in cfg.get("variants", []):
